@@ -1,17 +1,8 @@
-import os
-
-# Development aid only (never set by ./check itself): C13_SKIP=<bits> leaves out the input classes
-# whose violations are genuine, recorded defects, so that mutants can be judged by exit status
-# before those findings are entered in known-findings.json.
-#   1 = no histories with contradicting carriers, 2 = no deviating XDS call letters, 4 = no zero CNI in "exh"
-_SKIP = int(os.environ.get("C13_SKIP", "0"))
-
 _EXH = {"quick": sum(16 ** n for n in range(1, 5)), "thorough": sum(16 ** n for n in range(1, 7))}
 
 
 def _job(name, mode, cases, params=None):
-    p = {"p7": _SKIP}
-    p.update(params or {})
+    p = dict(params or {})
     return {"name": name, "harness": "c13_ident", "srcs": ["harness/c13_ident.c"], "flavour": "asan",
             "mode": mode, "cases": cases, "params": p, "budget": 20}
 
